@@ -228,3 +228,49 @@ fn c03_vec_from_filtered_iterator() {
     let v = r.unwrap();
     assert!(v.len() == 4 && v.as_slice()[0] == base && v.as_slice()[3] == base + 6, "C03: emplaced items differ from the iterator's");
 }
+
+/// C01 / C02 / C19 for arrays and vectors whose element stride differs from the element alignment: element i is validated at
+/// i * SIZE (not i * ALIGN), and a bad byte is reported at its own offset
+#[kani::proof]
+#[kani::unwind(10)]
+fn c02_array_of_b3() {
+    // BOUNDED: [B3; 2] (6 bytes) and FlatVec<B3, u8> in <= 7 bytes, contents symbolic
+    let back: [u8; 8] = kani::any();
+    let b = &back[..6];
+    let r = <[B3; 2]>::validate(b);
+    let mut bad: Option<usize> = None;
+    let mut i = 0;
+    while i < 6 { if bad.is_none() && b[i] > 1 { bad = Some(i); } i += 1; }
+    assert!(r.is_ok() == bad.is_none(), "C02: [B3; 2] acceptance differs from 'every Bool byte is 0/1'");
+    if let Err(e) = r {
+        assert!(e.kind == ErrorKind::InvalidData, "C02: wrong error kind for a bad Bool");
+        assert!(e.pos < 6, "C19: error position is not an offending byte");
+        assert!(b[e.pos] > 1, "C19: error position is not an offending byte");
+    }
+    let len: usize = kani::any();
+    kani::assume(len <= 7);
+    let v = &back[..len];
+    let rv = FlatVec::<B3, u8>::validate(v);
+    if len >= 1 {
+        let n = v[0] as usize;
+        let cap = (len - 1) / 3;
+        if n > cap { assert!(matches!(rv, Err(ref e) if e.kind == ErrorKind::InsufficientSize), "C02,C06: len > capacity must be InsufficientSize"); }
+        else {
+            let mut vb: Option<usize> = None;
+            let mut k = 0;
+            while k < 6 { if k < 3 * n && vb.is_none() && v[1 + k] > 1 { vb = Some(1 + k); } k += 1; }
+            assert!(rv.is_ok() == vb.is_none(), "C02: FlatVec<B3,u8> acceptance differs from the reference decoder");
+            if let Err(e) = rv { assert!(e.pos >= 1 && e.pos < 1 + 3 * n, "C19: error position is not an offending byte"); assert!(v[e.pos] > 1, "C19: error position is not an offending byte"); }
+        }
+    }
+}
+
+/// C04 / C02: as_bytes() of a sized value covers exactly size_of bytes
+#[kani::proof]
+fn c04_sized_as_bytes() {
+    assert!(SStruct::default().as_bytes().len() == core::mem::size_of::<SStruct>(), "C04,C02: as_bytes() of a sized value is not size_of long");
+    assert!(B3::default().as_bytes().len() == 3, "C04,C02: as_bytes() of a sized value is not size_of long");
+    assert!(SEnum::default().as_bytes().len() == core::mem::size_of::<SEnum>(), "C04,C02: as_bytes() of a sized value is not size_of long");
+    assert!(0u32.as_bytes().len() == 4 && <[u16; 3]>::default().as_bytes().len() == 6, "C04,C02: as_bytes() of a sized value is not size_of long");
+    assert!(<B3 as FlatBase>::MIN_SIZE == 3 && <B3 as FlatBase>::ALIGN == 1 && <B3 as FlatSized>::SIZE == 3, "C04: constants of a sized struct differ from rustc's layout");
+}
